@@ -1,8 +1,8 @@
 (* C13/Lemmas.v -- obligations on what is read from the source, and the
-   collected lemmas (LemStr, LemFmt, LemState, LemView, LemReach) *)
+   collected lemmas (LemStr, LemFmt, LemState, LemView, LemReach, LemEx, LemSess) *)
 From Coq Require Import ZArith List Bool Lia.
 From AK Require Import Common.Sx Common.Err gen.C13_Consts C13.Model.
-From AK Require Export C13.LemStr C13.LemFmt C13.LemState C13.LemView C13.LemReach C13.LemEx.
+From AK Require Export C13.LemStr C13.LemFmt C13.LemState C13.LemView C13.LemReach C13.LemEx C13.LemSess.
 Import ListNotations.
 Open Scope Z_scope.
 
